@@ -147,3 +147,43 @@ theorem trapz_scale_xy (a b : K) (l : List (K × K)) :
       rw [ih]; ring
 
 end Synphot
+
+namespace Synphot
+variable {K : Type} [Field K] [LinearOrder K] [IsStrictOrderedRing K]
+
+/-- a trapezoid sum whose ordinates are `w·g` with `m ≤ w ≤ M` and `g ≥ 0` on an ascending grid lies
+between `m` and `M` times the trapezoid sum of `g` (weighted-mean bound; triples are `(x, g, w)`) -/
+theorem trapz_weighted_bounds (m M : K) (l : List (K × K × K))
+    (hx : AscX (l.map fun p => (p.1, p.2.1)))
+    (hg : ∀ p ∈ l, 0 ≤ p.2.1) (hw : ∀ p ∈ l, m ≤ p.2.2 ∧ p.2.2 ≤ M) :
+    m * trapz (l.map fun p => (p.1, p.2.1)) ≤ trapz (l.map fun p => (p.1, p.2.2 * p.2.1)) ∧
+    trapz (l.map fun p => (p.1, p.2.2 * p.2.1)) ≤ M * trapz (l.map fun p => (p.1, p.2.1)) := by
+  induction l with
+  | nil => simp
+  | cons a l ih =>
+    cases l with
+    | nil => simp
+    | cons b l =>
+      simp only [List.map_cons, AscX] at hx
+      obtain ⟨hab, hx'⟩ := hx
+      have ih' := ih (by simpa [List.map_cons] using hx')
+        (fun p hp => hg p (List.mem_cons_of_mem _ hp)) (fun p hp => hw p (List.mem_cons_of_mem _ hp))
+      simp only [List.map_cons, trapz_cons_cons] at ih' ⊢
+      have hd : 0 ≤ b.1 - a.1 := sub_nonneg.mpr hab
+      have hga := hg a (by simp); have hgb := hg b (by simp)
+      have hwa := hw a (by simp); have hwb := hw b (by simp)
+      have e1 : m * a.2.1 ≤ a.2.2 * a.2.1 := mul_le_mul_of_nonneg_right hwa.1 hga
+      have e2 : m * b.2.1 ≤ b.2.2 * b.2.1 := mul_le_mul_of_nonneg_right hwb.1 hgb
+      have e3 : a.2.2 * a.2.1 ≤ M * a.2.1 := mul_le_mul_of_nonneg_right hwa.2 hga
+      have e4 : b.2.2 * b.2.1 ≤ M * b.2.1 := mul_le_mul_of_nonneg_right hwb.2 hgb
+      constructor
+      · have : m * ((b.1 - a.1) * (a.2.1 + b.2.1) / 2) ≤ (b.1 - a.1) * (a.2.2 * a.2.1 + b.2.2 * b.2.1) / 2 := by
+          have := mul_le_mul_of_nonneg_left (add_le_add e1 e2) hd
+          linarith
+        linarith [ih'.1]
+      · have : (b.1 - a.1) * (a.2.2 * a.2.1 + b.2.2 * b.2.1) / 2 ≤ M * ((b.1 - a.1) * (a.2.1 + b.2.1) / 2) := by
+          have := mul_le_mul_of_nonneg_left (add_le_add e3 e4) hd
+          linarith
+        linarith [ih'.2]
+
+end Synphot
